@@ -336,7 +336,13 @@ def _spell_num(rng, v, allow_neg=True):
 
 def _spell_mn(rng, mn):
     r = rng.random()
-    return mn if r < 0.6 else (mn.upper() if r < 0.8 else mn.capitalize())
+    if r < 0.55:
+        return mn
+    if r < 0.75:
+        return mn.upper()
+    if r < 0.9:
+        return mn.capitalize()
+    return "".join(c.upper() if rng.random() < 0.5 else c for c in mn)      # any mix of cases
 
 
 def render(rng, ap: AbsProg, noise=True):
